@@ -15,7 +15,7 @@ MAXPOS = 64
 
 
 class JM:
-    __slots__ = ("op", "n", "fshape", "pos", "status", "refs", "kinds", "args", "supported", "why", "integral", "gap", "check", "norm", "intersect")
+    __slots__ = ("op", "n", "fshape", "pos", "status", "refs", "kinds", "args", "supported", "why", "integral", "gap", "check", "norm", "intersect", "exactmode")
 
 
 def classify_op(kinds, intersect):
@@ -90,6 +90,7 @@ def analyse(call, maxpos=MAXPOS):
             a.why = "arity"
             return a
     a.integral = all(R.is_integral(t.array, 2 ** 20) for t in args)
+    a.exactmode = a.integral or all(R.is_dyadic(t.array, 40, 2 ** 20) for t in args)
     a.supported = True
     a.pos = R.positions(a.fshape, maxpos)
     a.status = []
@@ -97,8 +98,13 @@ def analyse(call, maxpos=MAXPOS):
     a.gap = []
     for pos in a.pos:
         elems = [R.element_array(t, pos, a.fshape) for t in args]
-        if a.integral:
+        if a.exactmode:
             st, refsub, gap = _exact_position(a, kinds, args, elems)
+            if not a.integral and st == "ind":
+                # dyadic data: the exact status is right, but the library's absolute zero test needs a clear margin
+                nst, _, gap = _numeric_position(a, kinds, args, elems)
+                if nst != "ind":
+                    st = "bad"
         else:
             st, refsub, gap = _numeric_position(a, kinds, args, elems)
         a.status.append(st)
